@@ -144,9 +144,10 @@ def match_finding(findings, prop, cls):
 # ---------------------------------------------------------------------------
 
 def write_replay(prop, tier, v):
-    os.makedirs(os.path.join(VERIF, 'replays'), exist_ok=True)
+    rdir = os.environ.get('T4MC_REPLAY_DIR') or os.path.join(VERIF, 'replays')
+    os.makedirs(rdir, exist_ok=True)
     name = '%s-%s.json' % (prop, sha(v['scn'], v['trace'], v.get('cls')))
-    path = os.path.join(VERIF, 'replays', name)
+    path = os.path.join(rdir, name)
     with open(path, 'w') as f:
         json.dump(dict(property=prop, tier=tier, scenario=v['scn'], trace=v['trace'],
                        choices=v.get('choices'), deck_text=v.get('deck'),
@@ -396,8 +397,9 @@ def main(mod_id, tier, seed):
     ev = dict(property_id=mod_id, tier=tier, seed=seed, level=mod.LEVEL, coverage=cov,
               assumptions=list(getattr(mod, 'ASSUMPTIONS', [])),
               wall_s=round(time.time() - t0, 2), violations=len(new_violations))
-    os.makedirs(os.path.join(VERIF, 'evidence'), exist_ok=True)
-    with open(os.path.join(VERIF, 'evidence', mod_id + '.json'), 'w') as f:
+    evdir = os.environ.get('T4MC_EVIDENCE_DIR') or os.path.join(VERIF, 'evidence')
+    os.makedirs(evdir, exist_ok=True)
+    with open(os.path.join(evdir, mod_id + '.json'), 'w') as f:
         json.dump(ev, f, indent=1, default=str)
     print('%s tier=%s executions=%d states=%d outputs=%d nontrivial=%d transitions=%d '
           'violations=%d known=%d cap_hit=%s wall=%.1fs'
